@@ -257,6 +257,35 @@ where
     (outcome, stats.polls)
 }
 
+/// The compiler reaches `resolve_tx` through the most indirect handle the crates accept as a compiler.
+/// On the tree as it stands only the instance itself implements the trait, so the pointee is handed
+/// over; should a pointer type (`&mut C`) ever be given an implementation of its own - forwarding
+/// what its author thought of - the pointer is handed over instead, as a caller holding one would.
+/// (Inherent methods whose bounds do not hold are skipped by method resolution; the trait method is
+/// the fallback.)
+pub struct Handle<'a>(pub &'a mut RealCompiler);
+
+#[allow(dead_code)]
+impl<'a> Handle<'a>
+where
+    &'a mut RealCompiler: tx3_tir::compile::Compiler<Expression = tir::Expression, CompilerOp = tir::CompilerOp> + Send,
+{
+    pub fn resolve(&mut self, w: &W, tx: &tir::Tx, args: &ArgMap, max_rounds: usize, cancel_after: Option<u32>) -> (Outcome, u32) {
+        w.lock().unwrap().probe("compiler-handed-over-as-a-pointer");
+        resolve_plain(w, tx, args, &mut self.0, max_rounds, cancel_after)
+    }
+}
+
+pub trait ThroughPointee {
+    fn resolve(&mut self, w: &W, tx: &tir::Tx, args: &ArgMap, max_rounds: usize, cancel_after: Option<u32>) -> (Outcome, u32);
+}
+
+impl<'a> ThroughPointee for Handle<'a> {
+    fn resolve(&mut self, w: &W, tx: &tir::Tx, args: &ArgMap, max_rounds: usize, cancel_after: Option<u32>) -> (Outcome, u32) {
+        resolve_plain(w, tx, args, &mut *self.0, max_rounds, cancel_after)
+    }
+}
+
 // ---------------------------------------------------------------- intent
 
 pub fn q_val(q: &Q, args: &ArgMap) -> Option<i128> {
@@ -849,6 +878,18 @@ pub fn check_wellformed(
         (Some(_), None) => rep.violate("C10", "M3-aux", "missing", format!("{ctx}: auxiliary data present but no auxiliary_data_hash")),
         (None, Some(_)) => rep.violate("C10", "M3-aux", "spurious", format!("{ctx}: auxiliary_data_hash present but no auxiliary data")),
     }
+    // "present exactly when metadata is present", "no empty entries": auxiliary data whose metadata map
+    // has no label carries nothing, yet costs a hash in the body
+    if d.aux_raw.is_some() {
+        if let Some(m) = &d.metadata {
+            if m.is_empty() {
+                rep.violate("C10", "M4-metadata", "empty map", format!("{ctx}: the auxiliary data carries a metadata map without a single label"));
+                if d.aux_hash.is_some() {
+                    rep.violate("C10", "M3-aux", "spurious", format!("{ctx}: auxiliary_data_hash present although no metadata is carried (empty map)"));
+                }
+            }
+        }
+    }
     let has_red = !d.redeemers.is_empty();
     match (has_red, &d.sdh) {
         (false, None) => {}
@@ -1003,7 +1044,7 @@ pub fn check_echo(
                     }
                 }
             }
-            Directive::Donation(q) => {
+            Directive::Donation(q, _) => {
                 if let Some(v) = q_val(q, args) {
                     if d.donation != Some(v) {
                         rep.violate(
@@ -1029,6 +1070,37 @@ pub fn check_echo(
                 Some(DatumSpec::Rec(q)) | Some(DatumSpec::Spread(q, _)) => Some((121, q_val(q, args))),
                 Some(DatumSpec::Misc { shape: 0, q, .. }) | Some(DatumSpec::Misc { shape: 3, q, .. }) => Some((121, q_val(q, args).and_then(|v| 0i128.checked_sub(v)))),
                 Some(DatumSpec::Misc { shape: 2, q, .. }) => Some((122, q_val(q, args))),
+                Some(DatumSpec::Misc { shape: 4, q, .. }) => {
+                    // an asset in a datum: however it is laid out, the quantity written is the quantity read
+                    if let (Some(v), Some(dat)) = (q_val(q, args), &o.datum) {
+                        fn ints(v: &ciborium::value::Value, out: &mut Vec<i128>) {
+                            if let Some(n) = crate::txread::as_int(v) {
+                                out.push(n);
+                                return;
+                            }
+                            match v {
+                                ciborium::value::Value::Array(a) => a.iter().for_each(|x| ints(x, out)),
+                                ciborium::value::Value::Map(m) => m.iter().for_each(|(k, x)| {
+                                    ints(k, out);
+                                    ints(x, out)
+                                }),
+                                ciborium::value::Value::Tag(_, x) => ints(x, out),
+                                other => {
+                                    if let Some(n) = crate::txread::as_int(other) {
+                                        out.push(n)
+                                    }
+                                }
+                            }
+                        }
+                        let mut found = vec![];
+                        ints(dat, &mut found);
+                        rep.probe("echo-datum-asset");
+                        if !found.contains(&v) {
+                            rep.violate("C02", "ECHO-datum", format!("asset-quantity/{}", range_class(v)), format!("{ctx}: the datum holds an asset of quantity {v} but the integers it decodes to are {found:?}"));
+                        }
+                    }
+                    None
+                }
                 _ => None,
             };
             if let Some((tag, v)) = want {
